@@ -9,6 +9,19 @@ NOTE_COMMON = ("Trusted: Lean 4.33 kernel; axioms propext/Classical.choice/Quot.
                "differential execution (sampling, not proof); harness, generators and the cfg(sentinel_verif) hooks; std, lru, serde are not modelled.")
 
 CLAIMS = {
+ "C03": dict(
+    category="proof",
+    text=("State-machine clauses for every strategy, rule and clock value: open_rejects_until_retry, open_lets_one_probe_through, half_open_rejects (exactly one probe per Half-Open phase), "
+          "admitted_only_if, probe_outcome_decides (re-open with a new deadline / close + reset), closing_clears_stats, blocked_probe_reopens / rollback_noop, "
+          "opens_only_when_threshold_met + thresholdMet_spelled (min request amount AND ratio/count threshold, evaluated on the window totals including this completion), "
+          "open_completion_only_counts, tryPass_/rollback_/onComplete_announces (every state change announced exactly once with the correct previous state, nothing announced without a change), "
+          "brSlot_blocked_iff (several breakers). Window: totals_eq_window (right after recording a completion, the totals compared with the thresholds are exactly the completions "
+          "of the last n buckets, by the generic ring refinement ring_window_sum + validAt_iff_inWin_after_write). Tied to circuitbreaker/breaker/*.rs, slot.rs, stat_slot.rs, api/base.rs, entry.rs "
+          "through EntryBuilder with a recording StateChangeListener; Spec on traces: an independent Closed/Open/Half-Open machine over the exact windowed completion history must reproduce "
+          "admissions, block type, every notification and the states read after every event."),
+    design_ref="DESIGN.md §6 C03",
+    technique="Lean 4 proofs (transition lemmas, notification well-formedness, ring refinement for the counters) + differential correspondence + independent state-machine Spec oracle on implementation traces",
+    note=NOTE_COMMON + " Sequential semantics (concurrency is C16). Ratios are the code's f64 division reproduced by the soft-float and compared exactly; snapshots carried by notifications are compared too."),
  "C06": dict(
     category="proof",
     text=("Per-value token bucket (Bucket.step = RejectChecker::do_check on one value's two cells): token_bound (for every arrival sequence of any length, tokens admitted from the "
